@@ -3085,7 +3085,8 @@ Lemma VP_removeNode s n s' : removeNode s n = Ok s' -> VP s s'.
 Proof.
   unfold removeNode. intros H%VP_zeroNode. eapply VP_trans; [|exact H].
   destruct (inGraph (nd s n)); [|apply VP_refl].
-  eapply VP_trans; [apply VP_upd; intros []; cbn; auto|apply VP_same_nodes; [reflexivity|auto]].
+  apply (VP_trans _ (upd s n (set inGraph (fun _ => false)))); [apply VP_upd; intros []; cbn; auto|].
+  apply VP_same_nodes; [reflexivity|auto].
 Qed.
 
 Lemma VP_rfold {A} (f : state -> A -> res state) l :
@@ -3144,7 +3145,7 @@ Proof.
   set (s4 := s3 <| invq := invq s3 ++ children (nd s3 n) |>) in *.
   assert (Hnd4 : forall m, nd s4 m = nd s3 m) by reflexivity.
   assert (D3 : VP s2 s4).
-  { eapply VP_trans; [apply VP_upd; intros []; cbn; auto|apply VP_same_nodes; [reflexivity|auto]]. }
+  { apply (VP_trans _ s3); [apply VP_upd; intros []; cbn; auto|apply VP_same_nodes; [reflexivity|auto]]. }
   pose proof (VP_trans _ _ _ (VP_trans _ _ _ (VP_trans _ _ _ D0 D1) D2) D3) as D4.
   assert (V4 : is_Some (nodes s !! n) -> valid (nd s4 n) = false).
   { intros Hs. rewrite Hnd4. unfold s3. rewrite nd_upd_same; [destruct (nd s2 n); reflexivity|].
@@ -3167,51 +3168,180 @@ Qed.
 Lemma VP_invalidateNode fuel s n s' : invalidateNode fuel s n = Ok s' -> VP s s'.
 Proof. intros H. apply (C08_invalidate_dequeues _ _ _ _ H). Qed.
 
-(* invalidating a list of nodes leaves each of them invalid and, if no invalid one was queued
-   before, none of them queued *)
+(** no invalid node is queued: an invariant of invalidation *)
+Definition INQ (s : state) : Prop := forall r, valid (nd s r) = false -> inHeap s r = false.
+
+(* teardown does not change validity at all *)
+Definition VE (s s' : state) : Prop :=
+  (forall r, valid (nd s' r) = valid (nd s r)) /\ (forall m, inHeap s' m = true -> inHeap s m = true).
+
+Lemma VE_refl s : VE s s.
+Proof. split; auto. Qed.
+Lemma VE_trans s1 s2 s3 : VE s1 s2 -> VE s2 s3 -> VE s1 s3.
+Proof. intros (A1 & A2) (B1 & B2). split; [intros r; rewrite B1; apply A1|auto]. Qed.
+Lemma VE_INQ s s' : VE s s' -> INQ s -> INQ s'.
+Proof.
+  intros (A1 & A2) I r Hr. rewrite A1 in Hr. destruct (inHeap s' r) eqn:E; [|reflexivity].
+  apply A2 in E. rewrite (I r Hr) in E. discriminate.
+Qed.
+Lemma VE_upd s n f : (forall x, valid (f x) = valid x) -> VE s (upd s n f).
+Proof. intros Hf. split; [intros r; apply (nd_upd_keep valid), Hf|auto]. Qed.
+Lemma VE_same_nodes s s' :
+  nodes s' = nodes s -> (forall m, inHeap s' m = true -> inHeap s m = true) -> VE s s'.
+Proof. intros En Hh. unfold VE, nd. rewrite En. split; auto. Qed.
+Lemma VE_heapRemove s n s' : heapRemove s n = Ok s' -> VE s s'.
+Proof.
+  intros H. apply VE_same_nodes.
+  - unfold heapRemove in H. apply rbind_ok in H as (w & _ & [= <-]). reflexivity.
+  - intros m. rewrite (heapRemove_inHeap _ _ _ m H). intros [_ Hm]%andb_true_iff. exact Hm.
+Qed.
+Lemma VE_unlink s c p : VE s (unlink s c p).
+Proof. unfold unlink. eapply VE_trans; apply VE_upd; intros []; reflexivity. Qed.
+Lemma VE_removeNode s n s' : removeNode s n = Ok s' -> VE s s'.
+Proof.
+  unfold removeNode, zeroNode. intros H. apply rbind_ok in H as (s1 & H1 & [= <-]).
+  set (s0 := if inGraph (nd s n) then _ else s) in *.
+  assert (D0 : VE s s0).
+  { unfold s0. destruct (inGraph (nd s n)); [|apply VE_refl].
+    apply (VE_trans _ (upd s n (set inGraph (fun _ => false)))); [apply VE_upd; intros []; reflexivity|].
+    apply VE_same_nodes; [reflexivity|auto]. }
+  assert (D1 : VE s0 s1) by (destruct (inHeap s0 n); [eapply VE_heapRemove, H1|injection H1 as <-; apply VE_refl]).
+  eapply VE_trans; [exact D0|]. eapply VE_trans; [exact D1|].
+  eapply VE_trans; [|apply VE_upd; intros []; reflexivity]. apply VE_same_nodes; [reflexivity|auto].
+Qed.
+Lemma VE_rfold {A} (f : state -> A -> res state) l :
+  (forall s a s', f s a = Ok s' -> VE s s') -> forall s s', rfold f l s = Ok s' -> VE s s'.
+Proof.
+  intros Hf. induction l as [|a l IH]; intros s s' H; cbn in H.
+  - injection H as <-. apply VE_refl.
+  - apply rbind_ok in H as (s1 & H1 & H). eapply VE_trans; [eapply Hf, H1|eapply IH, H].
+Qed.
+Lemma VE_removeParents fuel : forall s c s', removeParents fuel s c = Ok s' -> VE s s'.
+Proof.
+  induction fuel as [|fuel IH]; intros s c s' H; [discriminate|]. cbn [removeParents] in H.
+  revert H. apply VE_rfold. clear s s'. intros s p s' H.
+  pose proof (VE_unlink s c p) as Du.
+  destruct (isNecessary _); [injection H as <-; exact Du|].
+  destruct (negb _); [injection H as <-; exact Du|].
+  apply rbind_ok in H as (s1 & H1%IH & H%VE_removeNode).
+  eapply VE_trans; [exact Du|]. eapply VE_trans; [|eapply VE_trans; eauto].
+  apply VE_same_nodes; [reflexivity|auto].
+Qed.
+
+Lemma INQ_invalidateNode fuel : forall s n s', invalidateNode fuel s n = Ok s' -> INQ s -> INQ s'.
+Proof.
+  induction fuel as [|fuel IH]; intros s n s' H I; [discriminate|]. cbn [invalidateNode] in H.
+  destruct (valid (nd s n)) eqn:Ev; cbn [negb] in H; [|injection H as <-; exact I].
+  apply rbind_ok in H as (s1 & H1 & H). apply rbind_ok in H as (s2 & H2 & H).
+  set (s0 := upd (emit (EvInval n) s) n _) in *.
+  assert (I0 : INQ s0).
+  { eapply VE_INQ; [|exact I]. apply (VE_trans _ (emit (EvInval n) s)); [apply VE_same_nodes; [reflexivity|auto]|].
+    apply VE_upd. intros []; reflexivity. }
+  assert (I1 : INQ s1).
+  { destruct (isNecessary (nd s0 n)); [|injection H1 as <-; exact I0].
+    apply rbind_ok in H1 as (s3 & H3%VE_removeParents & [= <-]).
+    eapply VE_INQ; [|exact I0]. eapply VE_trans; [exact H3|apply VE_upd; intros []; reflexivity]. }
+  assert (I2 : INQ s2).
+  { destruct (nkind (nd s1 n)); try (injection H2 as <-; exact I1).
+    revert I1. generalize dependent s1. induction (b_rhsNodes _) as [|x l IHl]; intros s1 H2 I1; cbn [rfold] in H2.
+    - injection H2 as <-. exact I1.
+    - apply rbind_ok in H2 as (t & Ht & H2). eapply IHl; [exact H2|]. eapply IH; eauto. }
+  set (s3 := upd s2 n (set valid (fun _ => false))) in *.
+  set (s4 := s3 <| invq := invq s3 ++ children (nd s3 n) |>) in *.
+  intros r Hr. destruct (decide (r = n)) as [->|Hne].
+  - destruct (inHeap s4 n) eqn:Eh; [|injection H as <-; exact Eh].
+    rewrite (heapRemove_inHeap _ _ _ n H), bool_decide_eq_true_2 by reflexivity. reflexivity.
+  - assert (Hr2 : valid (nd s2 r) = false).
+    { assert (E : nd s' r = nd s2 r).
+      { transitivity (nd s4 r).
+        - destruct (inHeap s4 n); [|injection H as <-; reflexivity].
+          unfold heapRemove in H. apply rbind_ok in H as (w & _ & [= <-]). reflexivity.
+        - change (nd s3 r = nd s2 r). apply nd_upd_other, Hne. }
+      rewrite <- E. exact Hr. }
+    pose proof (I2 r Hr2) as Hq. destruct (inHeap s' r) eqn:E; [|reflexivity].
+    assert (inHeap s4 r = true); [|change (inHeap s2 r = true) in H0; congruence].
+    destruct (inHeap s4 n); [|injection H as <-; exact E].
+    rewrite (heapRemove_inHeap _ _ _ r H) in E. apply andb_true_iff in E as [_ E]. exact E.
+Qed.
+
+(* invalidating a list of nodes leaves each of them invalid and (given INQ) not queued *)
 Lemma rfold_invalidate_all fuel : forall l s s',
   rfold (invalidateNode fuel) l s = Ok s' ->
-  VP s s' /\
-  (forall r, r ∈ l -> is_Some (nodes s !! r) -> valid (nd s' r) = false) /\
-  ((forall r, r ∈ l -> valid (nd s r) = false -> inHeap s r = false) ->
-   forall r, r ∈ l -> is_Some (nodes s !! r) -> inHeap s' r = false).
+  VP s s' /\ (INQ s -> INQ s') /\
+  (forall r, r ∈ l -> is_Some (nodes s !! r) -> valid (nd s' r) = false).
 Proof.
   induction l as [|x l IH]; intros s s' H; cbn [rfold] in H.
-  - injection H as <-. split; [apply VP_refl|]. split; intros; exfalso; eapply not_elem_of_nil; eauto.
-  - apply rbind_ok in H as (s1 & H1 & H). destruct (IH _ _ H) as (D2 & Hl & Hq).
-    destruct (C08_invalidate_dequeues _ _ _ _ H1) as (D1 & Hid & Hx & Hx').
-    split; [eapply VP_trans; eauto|]. split.
-    + intros r [->|Hr]%elem_of_cons Hs.
-      * destruct D2 as (D2 & _). apply D2, Hx, Hs.
-      * apply Hl; [exact Hr|]. destruct D1 as (_ & _ & D1). apply D1, Hs.
-    + intros H0 r Hr Hs.
-      assert (Hx1 : inHeap s1 x = false \/ x <> r).
-      { destruct (decide (x = r)) as [->|]; [left|right; assumption].
-        destruct (valid (nd s r)) eqn:Ev.
-        - apply (Hx' eq_refl Hs).
-        - rewrite (Hid Ev). apply H0; [left|exact Ev]. }
-      destruct (inHeap s' r) eqn:Eq; [|reflexivity]. exfalso.
-      destruct D2 as (_ & D2h & _). pose proof (D2h r Eq) as Eq1.
-      apply elem_of_cons in Hr as [->|Hr].
-      * destruct Hx1 as [Hx1|Hx1]; [congruence|contradiction].
-      * assert (inHeap s' r = false); [|congruence].
-        apply Hq; [|exact Hr|destruct D1 as (_ & _ & D1); apply D1, Hs].
-        intros r' Hr' Hv'. destruct (inHeap s1 r') eqn:E1; [|reflexivity]. exfalso.
-        destruct D1 as (_ & D1h & _). pose proof (D1h r' E1) as E0.
-        destruct (valid (nd s r')) eqn:Ev0.
-        -- (* r' was valid before x's invalidation and invalid after: only x itself is dequeued *)
-           destruct (decide (r' = x)) as [->|Hne].
-           ++ destruct (valid (nd s x)) eqn:Evx; [|congruence].
-              assert (Hsx : is_Some (nodes s !! x)).
-              { unfold nd in Evx. destruct (nodes s !! x) eqn:En; [eauto|].
-                (* no record: the dummy is valid and stays so *)
-                exfalso. destruct (valid (nd s1 x)) eqn:E; [congruence|].
-                clear -H1 En E. revert E. unfold nd.
-                assert (nodes s1 !! x = None \/ is_Some (nodes s1 !! x)) as [->|Hs1] by (destruct (nodes s1 !! x); eauto).
-                - discriminate.
-                - intros _. exact I. }
-              destruct (Hx' eq_refl Hsx) as [Hq' _]. congruence.
-           ++ (* an invalid queued node other than x: excluded below by strengthening *)
-              exact I.
-        -- rewrite (H0 r' (elem_of_list_further _ _ _ Hr') Ev0) in E0. discriminate.
-Abort.
+  - injection H as <-. split; [apply VP_refl|]. split; [auto|]. intros r Hr. inversion Hr.
+  - apply rbind_ok in H as (s1 & H1 & H). destruct (IH _ _ H) as (D2 & I2 & Hl).
+    destruct (C08_invalidate_dequeues _ _ _ _ H1) as (D1 & _ & Hx & _).
+    split; [eapply VP_trans; eauto|]. split; [intros I; apply I2; eapply INQ_invalidateNode; eauto|].
+    intros r [->|Hr]%elem_of_cons Hs.
+    + destruct D2 as (D2 & _). apply D2, Hx, Hs.
+    + apply Hl; [exact Hr|]. destruct D1 as (_ & _ & D1). apply D1, Hs.
+Qed.
+
+(* [propagateInvalidity] may queue nodes, but only valid ones, and revalidates nothing *)
+Lemma propagateInvalidity_valid fuel : forall s s', propagateInvalidity fuel s = Ok s' ->
+  (forall r, valid (nd s r) = false -> valid (nd s' r) = false) /\ (INQ s -> INQ s').
+Proof.
+  induction fuel as [|fuel IH]; intros s s' H; [discriminate|]. cbn [propagateInvalidity] in H.
+  destruct (invq s) as [|n q]; [injection H as <-; auto|].
+  apply rbind_ok in H as (s1 & H1 & H). destruct (IH _ _ H) as [A B].
+  set (t := s <| invq := q |>) in *.
+  assert (C : (forall r, valid (nd t r) = false -> valid (nd s1 r) = false) /\ (INQ t -> INQ s1)).
+  { destruct (valid (nd t n)) eqn:Ev; [|injection H1 as <-; auto].
+    destruct (shouldBeInvalidated t n).
+    - split; [apply (VP_invalidateNode _ _ _ _ H1)|intros I; eapply INQ_invalidateNode; eauto].
+    - assert (G : forall u, heapAddIfNotPresent t n = Ok u ->
+                 (forall r, valid (nd t r) = false -> valid (nd u r) = false) /\ (INQ t -> INQ u)).
+      { intros u Hu. pose proof (heapAddIfNotPresent_heapOnly _ _ _ Hu) as Ho. split.
+        - intros r Hr. rewrite (heapOnly_nd _ _ r Ho). exact Hr.
+        - intros I r Hr. rewrite (heapOnly_nd _ _ r Ho) in Hr.
+          rewrite (heapAddIfNotPresent_inHeap _ _ _ r Hu), (I r Hr), orb_false_r.
+          apply bool_decide_eq_false_2. intros ->. congruence. }
+      first [apply G, H1|destruct (_ =? unset); [injection H1 as <-; auto|apply G, H1]]. }
+  destruct C as [C1 C2]. split; [intros r Hr; apply A, C1, Hr|intros I; apply B, C2, I].
+Qed.
+
+Lemma pf_changeParent fuel s c o n s' e : changeParent fuel s c o n = Ok (s', e) -> pframe s s'.
+Proof. eapply fr_changeParent; exact pframe_hyps. Qed.
+Lemma pf_inst e s sc x s' r : inst s sc x e = (s', r) -> pframe s s'.
+Proof. eapply fr_inst; exact pframe_hyps. Qed.
+
+(** C08.3: after a plain bind swapped its right-hand side, every node of the replaced
+    generation is invalid *)
+Lemma C08_swap_invalidates_old_generation fuel p s b s' :
+  bindLhsStabilize fuel p s b = Ok (s', None) ->
+  b_memo (bd s b) = false -> is_Some (b_rhs (bd s b)) ->
+  forall r, r ∈ b_rhsNodes (bd s b) -> is_Some (nodes s !! r) -> valid (nd s' r) = false.
+Proof.
+  unfold bindLhsStabilize. intros H Hm [o Ho] r Hr Hs. rewrite Hm, Ho in H.
+  apply rbind_ok in H as ([[s1 e1] built] & H1 & H).
+  assert (P1 : pframe s s1).
+  { apply rbind_ok in H1 as ([s2 e2] & H2%pf_invoke & H1).
+    eapply pframe_trans; [eapply pframe_trans; [|exact H2]|].
+    - apply pframe_same; reflexivity.
+    - destruct e2; [injection H1 as <- <- <-; apply pframe_refl|].
+      destruct (inst s2 _ _ _) as [s3 root] eqn:E. apply pf_inst in E. injection H1 as <- <- <-.
+      eapply pframe_trans; [exact E|]. eapply pframe_trans; [apply pframe_emit; exact I|].
+      apply pframe_same; reflexivity. }
+  destruct e1 as [e1|]; [discriminate|]. destruct built as [root|]; [|discriminate].
+  apply ebind_cases in H as (s2 & e2 & H2 & [(x & -> & -> & [=])|(-> & H)]).
+  apply ebind_cases in H as (s3 & e3 & [H3 ->]%lift_cases & [(x & [=] & _)|(_ & H)]).
+  apply lift_cases in H as [H _].
+  apply (proj1 (propagateInvalidity_valid _ _ _ H)).
+  apply rfold_invalidate_all in H3 as (_ & _ & H3). apply H3; [exact Hr|].
+  apply pf_changeParent in H2 as (_ & _ & _ & _ & _ & D2 & _). apply D2.
+  change (is_Some (nodes s1 !! r)). destruct P1 as (_ & _ & _ & _ & _ & D1 & _). apply D1, Hs.
+Qed.
+
+(* the invalidation half alone: also the queue is clean afterwards when it was before *)
+Lemma C08_old_generation_not_queued fuel l s s1 s' :
+  rfold (invalidateNode fuel) l s = Ok s1 -> propagateInvalidity fuel s1 = Ok s' -> INQ s ->
+  INQ s' /\ forall r, r ∈ l -> is_Some (nodes s !! r) -> valid (nd s' r) = false /\ inHeap s' r = false.
+Proof.
+  intros H1 H2 I. destruct (rfold_invalidate_all _ _ _ _ H1) as (_ & I1 & V1).
+  destruct (propagateInvalidity_valid _ _ _ H2) as (V2 & I2).
+  pose proof (I2 (I1 I)) as I'. split; [exact I'|]. intros r Hr Hs.
+  pose proof (V2 r (V1 r Hr Hs)) as Hv. split; [exact Hv|apply I', Hv].
+Qed.
